@@ -1,4 +1,4 @@
-"""C02 — every scan cycle ends in success or a value-dependent fault, never a crash."""
+"""C02 — the interpreter agrees with an independent IEC reference semantics for the ST core."""
 from checks.stcore_common import COMMON_TRUSTED, make_extra, translate_faults
 
 SPEC = {
@@ -7,19 +7,16 @@ SPEC = {
     "lean_modules": ["TrustVerif.Props.C02"],
     "translators": [translate_faults],
     "tiers": {
-        "quick": {"cases": 2000, "extra": {"cycles": 3}},
+        "quick": {"cases": 1200, "extra": {"cycles": 3}},
         "thorough": {"cases": 30000, "extra": {"cycles": 4}},
     },
     # a model/implementation disagreement is first of all a question about the model; the failing
     # inputs of the property come from the oracle on the implementation (extra)
     "disagreement_is_violation": False,
-    "rule": "case = generated PROGRAM (BOOL + 8 integer kinds, := IF CASE FOR WHILE REPEAT EXIT CONTINUE RETURN; "
-            "profiles strict/natural/wild, optionally ill-typed in exactly one place) x 3 scan cycles with input "
-            "writes between cycles; non-trivial = accepted by the real compiler and at least one cycle completed; "
-            "distinct = by hash of the case's operation lines",
+    "rule": "case = generated PROGRAM, 35 % of them with 1-3 user FUNCTIONs (stage S4), over BOOL + the 8 integer kinds with := IF CASE FOR WHILE REPEAT EXIT CONTINUE RETURN and calls (positional / formal, defaults, OUT, IN_OUT); profiles strict / natural / wild, optionally ill-typed in exactly one place; x 3 scan cycles with input writes between cycles; plus on every run the witnesses of the recorded findings and an exhaustive 657-program matrix over all type pairs (assignment, one operator per class, unary operators, FOR control/bound, CASE selector/label); non-trivial = accepted by the real compiler and at least one cycle completed; distinct = by hash of the case's operation lines",
     "trusted_base": COMMON_TRUSTED,
     "assumptions": [
-        "ST-core fragment only (stages S1+S2); strings, REAL, time/date, references, OOP, standard functions are not modelled",
+        "ST-core fragment only (stages S1+S2 proved, S4 FUNCTION calls modelled and compared); arrays/structs, FB instances, strings, REAL, time/date, references, OOP, standard functions are not modelled",
         "the program runs as the single background PROGRAM instance (TestHarness::from_source), no tasks, no I/O bindings",
     ],
 }
@@ -27,9 +24,7 @@ SPEC = {
 extra = make_extra("C02")
 
 MANIFEST = {
-    "technique": "Lean 4 type-soundness proof (progress: no static-class fault, no panic, frames empty) for an executable "
-                 "model of the interpreter + differential correspondence (verdict, outcome, tagged store) against the real "
-                 "compiler/runtime + oracle on the implementation with recorded findings",
-    "level_text": "see checks/c02.py (filled in by the builder)",
-    "level_note": "see checks/c02.py",
+    "technique": "Lean 4 refinement proof (implementation model = independently written, statically typed IEC reference) under a decidable guard + counterexamples + differential correspondence against the real runtime + the reference itself run as the oracle on the implementation's variable dumps",
+    "level_text": "Spec (Model/C02.lean) is written from docs/specs/05, 06 and IEC 61131-3, not from the Rust: statically typed, exact arithmetic in the operand type with a fault on overflow, truncating division, MOD with the sign of the dividend, short-circuit AND/OR, FOR evaluated once and tested before each iteration, RETURN as early exit. Proved in Lean: c02_refines_partial / c02_every_cycle_partial — for every program inside the guard Strict, every well-typed input trace, every budget and every cycle, the erased values of ALL variables after the cycle equal the reference's and the cycle faults exactly when, and with the fault, the reference says (also for the partial effects of a faulting cycle); c02_fault_kinds; three c02_counterexample_* theorems show the full statement is FALSE of the code as it is (untyped literals computed in DINT: missed INT overflow; RETURN in a PROGRAM; ULINT FOR bounds cast to i64) and c02_repairs_remove_the_counterexamples shows the modelled repairs remove them. Every run: correspondence as for C01, and the reference is executed on every generated program it types and compared with the implementation's dumps; a mismatch is attributed to a recorded finding only if it disappears under the modelled repair, and never inside Strict.",
+    "level_note": "The reference is my reading of the specs (choices stated in Model/C02.lean: untyped literal takes the type of its context; FOR increment is arithmetic in the control variable's type; no implicit signed/unsigned mixing). Refinement is proved for stages S1+S2 inside Strict only; outside Strict and for FUNCTION calls (S4) agreement is judged by the oracle / correspondence (calls: c02=na in the oracle — the reference does not cover calls yet; call defects are recorded from hand-written witnesses). S3, S5, REAL, TIME not covered. The theorems are about the hand-written models, tied to /repo by the differential run only.",
 }
